@@ -57,8 +57,13 @@ def model_fs(ctl, ctlstate, text, files):
             put(b"D", name, b"<dirfull>")
         if state == "occupied":
             put(b"D", name, content + b"Z" * 250)
-    if ctlstate in ("ok", "blocked", "occupied"):
+    if ctlstate in ("ok", "blocked", "occupied", "symlink"):
         put(b"S", ctl, text)
+    if ctlstate == "symlink":
+        put(b"outside", ctl, text)
+        for name, state, content in files:
+            if plain(name):
+                put(b"outside", name, b"decoy")
     elif ctlstate == "dir":
         put(b"S", ctl, b"<dir>")
     elif ctlstate == "dirfull":
@@ -130,6 +135,9 @@ def scenarios(chk):
                     out.append((kind, op, ctl, st, fl))
                 if n:
                     out.append((kind, op, ctl, "occupied", [(a, "occupied", c) for a, _, c in fl]))
+                # the control file is a symbolic link to a file elsewhere: the operation still acts in the directory the
+                # handle was opened in
+                out.append((kind, op, ctl, "symlink", fl))
             # listed names that are not plain file names
             for bad in BAD:
                 if kind == "changes" and b" " in bad:
@@ -195,8 +203,14 @@ def run(chk):
         hxn = lambda d, n: "x" + d.hex() + "/x" + n.hex()
         why = None
         listed = [n for n, _, _ in files]
-        if ents.get(b"outside/canary") != b"canary" or ents.get(b"root/rootcanary") != b"canary" or ents.get(b"S/sub") != b"<dirfull>" \
-                or any(k.startswith(b"outside/") and k != b"outside/canary" for k in ents):
+        allowed_out = {b"outside/canary": b"canary"}
+        if ctlstate == "symlink":
+            allowed_out[b"outside/" + ctl] = bytes.fromhex(i.rsplit(" ", 1)[1][1:])
+            for n in listed:
+                if plain(n):
+                    allowed_out[b"outside/" + n] = b"decoy"
+        if ents.get(b"root/rootcanary") != b"canary" or ents.get(b"S/sub") != b"<dirfull>" \
+                or {k: v for k, v in ents.items() if k.startswith(b"outside/")} != allowed_out:
             why = "a file outside the control file's directory and the destination was read into the destination, overwritten, moved or deleted"
         elif not all(plain(n) for n in listed):
             if res != "err":
